@@ -8,6 +8,7 @@ import dataclasses
 import keyword
 import logging
 import re
+from enum import Enum
 from typing import Any, Set, Type, TypeVar, cast
 
 logger = logging.getLogger(__name__)
@@ -428,6 +429,12 @@ class DataclassSerializer:
             Serialised object with all dataclasses converted to dicts
         """
         from .cattrs_converter import unstructure_to_dict
+
+        # Enums are converted to their value. This must come before the primitive check: generated enums
+        # derive from str/int, and a (str, Enum) member passed on unchanged is rendered as "Colour.RED"
+        # (not "red") once it reaches a URL, query string or header.
+        if isinstance(obj, Enum):
+            return obj.value
 
         # Handle primitives early (no tracking needed)
         if obj is None or isinstance(obj, (str, int, float, bool)):
